@@ -2,12 +2,14 @@ import CookModel.Driver.Num
 import CookModel.Driver.Convert
 import CookModel.Driver.Scale
 import CookModel.Driver.Syntax
+import CookModel.Driver.Aisle
 /- Registry of line-protocol handlers. One line per area. -/
 namespace Cook.Driver
 def handlers : List (List String → Option String) := [
   handleNum,
   handleConvert,
   handleScale,
-  handleSyntax
+  handleSyntax,
+  handleAisle
 ]
 end Cook.Driver
